@@ -41,7 +41,7 @@ def snapshot(cfg):
 def _snapshot(cfg):
     s = {}
     s["config_block"] = bytes(cfg.config_block)
-    s["settings_tuple"] = tuple((int(x.index.value), int(x.type.value), int(x.length), bytes(x.value)) for x in cfg.settings_tuple)
+    s["settings_tuple"] = tuple((int(x.index.value), str(x.index), int(x.type.value), int(x.length), bytes(x.value)) for x in cfg.settings_tuple)
     for name in ("settings", "settings_by_index", "raw_settings", "raw_settings_by_index"):
         s[name] = tuple((norm(k), norm(v)) for k, v in getattr(cfg, name).items())
     for a in ("xorkey", "xorencoded", "pe_export_stamp", "pe_compile_stamp", "architecture", "domains", "uris", "submit_uri", "protocol", "port", "sleeptime",
@@ -101,7 +101,17 @@ def do_use(u, cfg, env):
                      cl.c2http.transform_response.tsteps, cl.c2http.transform_response.rsteps))
     if u == "profile":
         p = c2profile.C2Profile.from_beacon_config(cfg)
-        return repr(p.tree)
+        out = (repr(p.tree), p.as_text())
+        # the profile handed out belongs to the caller: edit it (as code that post-processes generated profiles does)
+        try:
+            p.set_option("sleeptime", "1000")
+            p.set_option("pipename", "edited")
+            for v in p.properties.values():
+                if isinstance(v, list) and v:
+                    v.pop()
+        except Exception:  # noqa: BLE001
+            pass
+        return out
     if u == "mutate":
         res = []
         for name in ("settings", "settings_by_index", "raw_settings", "raw_settings_by_index"):
@@ -142,7 +152,10 @@ def make_env():
     # a second shape: Cobalt Strike's defaults (recover program of a single step, no statics)
     minimal = tlv.block(tlv.http_config(key.publickey().export_key("DER")))
     empty_recover = tlv.block(tlv.http_config(key.publickey().export_key("DER"), recover=[]))
-    blocks = {"synthetic": block, "minimal": minimal, "empty_recover": empty_recover}
+    # a third shape: a configuration of the 3.x / 4.0-4.4 generation with the deprecated setting 36 as a SHORT (INJECT_OPTIONS;
+    # newer configurations use that index for the watermark hash) and the legacy kill date fields
+    legacy = tlv.block(tlv.http_config(key.publickey().export_key("DER"), extra=[tlv.short(36, 7), tlv.short(16, 2021), tlv.short(17, 12), tlv.short(18, 31)]))
+    blocks = {"synthetic": block, "minimal": minimal, "empty_recover": empty_recover, "legacy": legacy}
     env = {"key": key, "blocks": blocks}
     env["get_request"] = {}
     for nm, blk in blocks.items():
